@@ -256,6 +256,16 @@ def _compare(m, r, tags, rec, where):
                 r.opt_bounds_custom.add(k)
     if m.hankel_kw != r.hankel_kw:
         bad("hankel_kw", m.hankel_kw, r.hankel_kw)
+    # the geometric methods follow the current ratios and angles (called after every step: nothing may be remembered)
+    if not r.latlon and all(np.isfinite(r.anis)) and all(a > 0 for a in r.anis) and all(np.isfinite(r.angles)):
+        from oracles import geometry as geo_
+
+        x = np.array([[0.7 * (i + 1) * (-1) ** j + 0.1 * j for j in range(4)] for i in range(r.dim)], dtype=float)
+        M = geo_.iso_matrix(r.dim, list(r.angles), list(r.anis))
+        got = np.asarray(m.isometrize(x))
+        sc = float(np.max(np.abs(M))) * float(np.max(np.abs(x)))
+        if got.shape != x.shape or float(np.max(np.abs(got - M @ x))) > 1e-11 * sc:
+            bad("isometrize(x)", got.tolist(), (M @ x).tolist())
 
 
 def _apply_real(m, op):
